@@ -6,6 +6,8 @@
   the EFFECT on the addressed path and the FRAME (what is left untouched).
 -/
 import Proofs.C02
+import Proofs.C02Ext
+import Proofs.C02ExtReplace
 
 namespace MongoModel.Props.C02
 open MongoModel MongoModel.Spec
@@ -301,5 +303,196 @@ example : pyEq (.doc [("a", .int 1), ("a", .int 2)]) (.doc [("a", .int 1), ("a",
 /-- server versions: an empty `$set` -/
 example : emptyOperatorCheck { preV5 := true } [("$set", .doc [])] = .error .writeErr ∧
     emptyOperatorCheck { preV5 := false } [("$set", .doc [])] = .ok () := by decide +kernel
+
+/-! ### a whole update is the pointwise combination of its entries
+
+The theorems above describe one operator on one path and say that unaddressed fields stay.  The
+following ones tie a WHOLE update `{op: {path: arg, …}, …}` to its parts, the entries
+`(op, path, arg)` (`Spec.entries`), each taken as an update of its own (`Spec.single`).  The side
+condition is that no two entries address the same top-level field: `(addressed u).Nodup`
+(`addressed` lists the first component of every path and, for `$rename`, the target too). -/
+
+/-- **Pointwise combination.**  When a (non-empty, `$`-keyed) update whose entries address
+    pairwise different top-level fields succeeds on a document, then EVERY entry, run alone on the
+    ORIGINAL document, succeeds too, and the result of the whole update holds under each field the
+    entry addresses exactly what that entry alone puts there.  Entries do not see each other's
+    effects; with `untouched_fields` (all other fields are as before) this determines the result
+    field by field.  All operators of the model are covered (`$set $unset $inc $min $max $pop
+    $currentDate $setOnInsert $rename $push $addToSet $pull $pullAll`), documents holding a key
+    twice included. -/
+theorem update_is_pointwise (spec now : Val) (wasInsert : Bool) (u fs fs' : Fields)
+    (hu : u.all (fun kv => kv.1.startsWith "$") = true) (hne : u ≠ [])
+    (hd : (addressed u).Nodup)
+    (h : applyUpdate spec (.doc u) now wasInsert (.doc fs) = .ok (.doc fs')) :
+    ∀ e, e ∈ entries u → ∃ fs₁,
+      applyUpdate spec (.doc (single e)) now wasInsert (.doc fs) = .ok (.doc fs₁) ∧
+      ∀ k, k ∈ addressed (single e) → dget k fs' = dget k fs₁ :=
+  Proofs.C02.update_is_pointwise spec now wasInsert u fs fs' hu hne hd h
+
+/-- non-vacuity: five operators, seven entries (dotted paths, an array index, a `$rename` with
+    its two fields, a `$setOnInsert` that is skipped), distinct heads; the update succeeds, and so
+    does e.g. its `$inc` entry alone, leaving the same `n` -/
+example :
+    let u : Fields := [("$set", .doc [("a.x", .int 1), ("l.1", .int 7)]), ("$inc", .doc [("n", .int 2)]),
+      ("$rename", .doc [("c", .str "e")]), ("$push", .doc [("p", .int 9)]),
+      ("$setOnInsert", .doc [("s", .int 0)]), ("$unset", .doc [("z", .str "")])]
+    let fs : Fields := [("_id", .int 1), ("a", .doc [("y", .int 0)]), ("l", .arr [.int 5, .int 6]),
+      ("n", .int 40), ("c", .str "v"), ("z", .int 0), ("z", .int 1)]
+    u.all (fun kv => kv.1.startsWith "$") = true ∧ u ≠ [] ∧ (addressed u).Nodup ∧
+    addressed u = ["a", "l", "n", "c", "e", "p", "s", "z"] ∧ (entries u).length = 7 ∧
+    okIs (applyUpdate .null (.doc u) .null false (.doc fs))
+      (.doc [("_id", .int 1), ("a", .doc [("y", .int 0), ("x", .int 1)]), ("l", .arr [.int 5, .int 7]),
+             ("n", .int 42), ("z", .int 1), ("e", .str "v"), ("p", .arr [.int 9])]) = true ∧
+    okIs (applyUpdate .null (.doc (single ("$inc", "n", .int 2))) .null false (.doc fs))
+      (.doc [("_id", .int 1), ("a", .doc [("y", .int 0)]), ("l", .arr [.int 5, .int 6]),
+             ("n", .int 42), ("c", .str "v"), ("z", .int 0), ("z", .int 1)]) = true := by
+  decide +kernel
+
+/-- why the heads must differ: in `$set a: 1` followed by `$inc a: 1` the second entry sees the
+    effect of the first one (`a` becomes 2); alone on the original document it yields 6 -/
+example :
+    let u : Fields := [("$set", .doc [("a", .int 1)]), ("$inc", .doc [("a", .int 1)])]
+    ¬ (addressed u).Nodup ∧
+    okIs (applyUpdate .null (.doc u) .null false (.doc [("a", .int 5)])) (.doc [("a", .int 2)]) = true ∧
+    okIs (applyUpdate .null (.doc (single ("$inc", "a", .int 1))) .null false (.doc [("a", .int 5)]))
+      (.doc [("a", .int 6)]) = true := by
+  decide +kernel
+
+/-- **An entry reads only the fields it addresses.**  On two documents (without duplicate keys)
+    that hold the same values under the top-level fields an entry addresses, the entry fails
+    alike, or succeeds on both and leaves the same values under those fields — so an entry
+    commutes with any edit of other fields.  (With `untouched_fields` for `single e`: an entry
+    neither reads nor writes anything else.  This is the ingredient of `update_is_pointwise`; there
+    it is used in a form that also covers documents holding a key twice.) -/
+theorem entry_reads_only_its_fields (spec now : Val) (wasInsert : Bool) (e : Entry)
+    (fs gs : Fields) (he : e.1.startsWith "$" = true)
+    (hk : (dkeys fs).Nodup) (hk' : (dkeys gs).Nodup)
+    (hag : ∀ k, k ∈ addressed (single e) → dget k fs = dget k gs) :
+    (∀ err, applyUpdate spec (.doc (single e)) now wasInsert (.doc fs) = .error err →
+      applyUpdate spec (.doc (single e)) now wasInsert (.doc gs) = .error err) ∧
+    (∀ fs', applyUpdate spec (.doc (single e)) now wasInsert (.doc fs) = .ok (.doc fs') →
+      ∃ gs', applyUpdate spec (.doc (single e)) now wasInsert (.doc gs) = .ok (.doc gs') ∧
+        ∀ k, k ∈ addressed (single e) → dget k fs' = dget k gs') :=
+  Proofs.C02.entry_reads_only_its_fields spec now wasInsert e fs gs he hk hk' hag
+
+/-- non-vacuity: a `$rename c → e` on two documents that agree on `c` and `e` (both lack `e`) and
+    differ elsewhere -/
+example :
+    let fs : Fields := [("_id", .int 1), ("c", .str "v"), ("x", .int 0)]
+    let gs : Fields := [("c", .str "v"), ("_id", .int 2), ("y", .arr [])]
+    let e : Entry := ("$rename", "c", .str "e")
+    e.1.startsWith "$" = true ∧ (dkeys fs).Nodup ∧ (dkeys gs).Nodup ∧ addressed (single e) = ["c", "e"] ∧
+    (dget "c" fs == dget "c" gs) = true ∧ (dget "e" fs == dget "e" gs) = true ∧
+    okIs (applyUpdate .null (.doc (single e)) .null false (.doc fs))
+      (.doc [("_id", .int 1), ("x", .int 0), ("e", .str "v")]) = true ∧
+    okIs (applyUpdate .null (.doc (single e)) .null false (.doc gs))
+      (.doc [("_id", .int 2), ("y", .arr []), ("e", .str "v")]) = true := by
+  decide +kernel
+
+/-- **Errors, one direction (no shape condition).**  If some entry alone fails on the original
+    document, the whole update fails. -/
+theorem update_error_of_entry (spec now : Val) (wasInsert : Bool) (u fs : Fields)
+    (hu : u.all (fun kv => kv.1.startsWith "$") = true) (hne : u ≠ [])
+    (hd : (addressed u).Nodup) (e : Entry) (he : e ∈ entries u) (err : Err)
+    (h : applyUpdate spec (.doc (single e)) now wasInsert (.doc fs) = .error err) :
+    ∃ err', applyUpdate spec (.doc u) now wasInsert (.doc fs) = .error err' :=
+  Proofs.C02.update_error_of_entry spec now wasInsert u fs hu hne hd e he err h
+
+/-- **Errors, both directions.**  A well-shaped update (every key one of the model's operators,
+    every argument a document — an unknown operator or a non-document argument fails without
+    having any entry) with distinct heads fails exactly when one of its entries alone fails on the
+    original document.  (Which error is reported may differ: e.g. the `$`-in-path check of
+    `$set`-like operators is made for the whole operator document before its first field.) -/
+theorem update_error_iff (spec now : Val) (wasInsert : Bool) (u fs : Fields) (hne : u ≠ [])
+    (hs : wellShaped u = true) (hd : (addressed u).Nodup) :
+    (∃ err, applyUpdate spec (.doc u) now wasInsert (.doc fs) = .error err) ↔
+      ∃ e, e ∈ entries u ∧
+        ∃ err, applyUpdate spec (.doc (single e)) now wasInsert (.doc fs) = .error err :=
+  Proofs.C02.update_error_iff spec now wasInsert u fs hne hs hd
+
+/-- non-vacuity: a well-shaped update with distinct heads whose second entry (`$inc` of a string
+    by a number) fails alone, and the whole update fails; and the shape condition is needed: an
+    unknown operator with an empty argument has no entry and fails -/
+example :
+    let u : Fields := [("$set", .doc [("a", .int 1)]), ("$inc", .doc [("s", .int 1)])]
+    let fs : Fields := [("_id", .int 1), ("s", .str "x")]
+    u ≠ [] ∧ wellShaped u = true ∧ (addressed u).Nodup ∧
+    (match applyUpdate .null (.doc u) .null false (.doc fs) with | .error .typeErr => true | _ => false) = true ∧
+    (match applyUpdate .null (.doc (single ("$inc", "s", .int 1))) .null false (.doc fs) with
+      | .error .typeErr => true | _ => false) = true ∧
+    wellShaped [("$foo", .doc [])] = false ∧ (entries [("$foo", .doc [])]).length = 0 ∧
+    (match applyUpdate .null (.doc [("$foo", .doc [])]) .null false (.doc fs) with
+      | .error .valueErr => true | _ => false) = true := by
+  decide +kernel
+
+/-- **Order is irrelevant.**  Two updates with the same entries up to order (operators permuted,
+    paths permuted inside an operator document, an operator document split or merged:
+    `(entries u).Perm (entries u')`), with distinct heads, that both succeed on a document yield
+    the same value under every top-level field — the results differ at most in the ORDER of their
+    top-level fields. -/
+theorem update_order_irrelevant (spec now : Val) (wasInsert : Bool) (u u' fs fs' fs'' : Fields)
+    (hu : u.all (fun kv => kv.1.startsWith "$") = true) (hne : u ≠ [])
+    (hu' : u'.all (fun kv => kv.1.startsWith "$") = true) (hne' : u' ≠ [])
+    (hd : (addressed u).Nodup) (hp : (entries u).Perm (entries u'))
+    (h : applyUpdate spec (.doc u) now wasInsert (.doc fs) = .ok (.doc fs'))
+    (h' : applyUpdate spec (.doc u') now wasInsert (.doc fs) = .ok (.doc fs'')) :
+    ∀ k, dget k fs' = dget k fs'' :=
+  Proofs.C02.update_order_irrelevant spec now wasInsert u u' fs fs' fs'' hu hne hu' hne' hd hp h h'
+
+/-- … and the permuted update does succeed when it is well shaped. -/
+theorem update_order_success (spec now : Val) (wasInsert : Bool) (u u' fs fs' : Fields)
+    (hu : u.all (fun kv => kv.1.startsWith "$") = true) (hne : u ≠ []) (hne' : u' ≠ [])
+    (hs' : wellShaped u' = true)
+    (hd : (addressed u).Nodup) (hp : (entries u).Perm (entries u'))
+    (h : applyUpdate spec (.doc u) now wasInsert (.doc fs) = .ok (.doc fs')) :
+    ∃ fs'', applyUpdate spec (.doc u') now wasInsert (.doc fs) = .ok (.doc fs'') :=
+  Proofs.C02.update_order_success spec now wasInsert u u' fs fs' hu hne hne' hs' hd hp h
+
+/-- non-vacuity: the same three entries in reverse order (operators swapped, the paths inside
+    `$set` swapped); both succeed, the new fields `b`, `n` come out in a different order -/
+example :
+    let u : Fields := [("$set", .doc [("a", .int 1), ("b.c", .int 2)]), ("$inc", .doc [("n", .int 1)])]
+    let u' : Fields := [("$inc", .doc [("n", .int 1)]), ("$set", .doc [("b.c", .int 2), ("a", .int 1)])]
+    (entries u).Perm (entries u') ∧ (addressed u).Nodup ∧ wellShaped u' = true ∧
+    okIs (applyUpdate .null (.doc u) .null false (.doc [("_id", .int 1), ("a", .int 0)]))
+      (.doc [("_id", .int 1), ("a", .int 1), ("b", .doc [("c", .int 2)]), ("n", .int 1)]) = true ∧
+    okIs (applyUpdate .null (.doc u') .null false (.doc [("_id", .int 1), ("a", .int 0)]))
+      (.doc [("_id", .int 1), ("a", .int 1), ("n", .int 1), ("b", .doc [("c", .int 2)])]) = true := by
+  refine ⟨?_, by decide +kernel, by decide +kernel, by decide +kernel, by decide +kernel⟩
+  exact (List.reverse_perm _).symm
+
+/-! ### replacement, field by field -/
+
+/-- **What a replacement yields**, for ANY replacement document (`replace_spec` is the case
+    without `_id` and without duplicate keys): every field reads the LAST value the replacement
+    gives it (`lastGet`), `_id` — when the replacement does not give one — the `_id` of the replaced
+    document, and nothing else is there; no key occurs twice; and when the replaced document had
+    an `_id`, `_id` is the first field and is `==` to the old one. -/
+theorem replace_then_get (doc existing fs' : Fields)
+    (h : replaceWhole doc (.doc existing) = .ok (.doc fs')) :
+    (∀ k, dget k fs' = match lastGet k doc with
+        | some v => some v
+        | none => if k = "_id" then dget "_id" existing else none) ∧
+    (dkeys fs').Nodup ∧
+    (∀ id, dget "_id" existing = some id →
+      (dkeys fs').head? = some "_id" ∧ ∃ id', dget "_id" fs' = some id' ∧ pyEq id' id = true) :=
+  Proofs.C02.replace_then_get doc existing fs' h
+
+/-- **When a replacement is accepted**: no top-level key starts with `$`, and the `_id` it ends up
+    with (its own last `_id`, else the old one) is `==` to the old `_id`. -/
+theorem replace_ok_iff (doc existing : Fields) :
+    (∃ fs', replaceWhole doc (.doc existing) = .ok (.doc fs')) ↔
+      (doc.all (fun kv => !kv.1.startsWith "$") = true ∧
+       ∀ id, dget "_id" existing = some id → pyEq ((lastGet "_id" doc).getD id) id = true) :=
+  Proofs.C02.replace_ok_iff doc existing
+
+/-- non-vacuity: a replacement giving `x` twice and an `_id` `==` to the old one (`1.0 == 1`): the
+    last `x` wins, the new `_id` value is stored, first; a different `_id` is refused -/
+example :
+    okIs (replaceWhole [("x", .int 1), ("_id", .dbl 1 0), ("x", .int 2)] (.doc [("_id", .int 1), ("y", .int 0)]))
+      (.doc [("_id", .dbl 1 0), ("x", .int 2)]) = true ∧
+    (lastGet "x" [("x", .int 1), ("_id", .dbl 1 0), ("x", .int 2)] == some (.int 2)) = true ∧
+    (match replaceWhole [("_id", .int 2)] (.doc [("_id", .int 1)]) with
+      | .error .opFail => true | _ => false) = true := by decide +kernel
 
 end MongoModel.Props.C02
